@@ -38,6 +38,10 @@ type fragCase struct {
 	EOF int `json:"eof"`
 	// Follow: a later call on the same client must not change the reply already returned
 	Follow bool `json:"follow,omitempty"`
+	// EchoShaped (RTU framings, FC03): the device's memory is prepared so that the legal reply BEGINS with the bytes of the request itself
+	// (byte count == address high byte, first registers == rest of the request incl. its CRC, then the unit id): a reply that looks
+	// like an echo of the request followed by a frame
+	EchoShaped bool `json:"echo_shaped,omitempty"`
 	// SlowLastMs (serial kinds, with Follow): the read that delivers the last chunk blocks this long - longer than the client's
 	// total read timeout (200 ms in these cases). The reply is complete when that read returns, so the call succeeds, and the
 	// later call on the same client must not be affected by the timeout that expired meanwhile.
@@ -50,6 +54,10 @@ type fragCase struct {
 func replies(c fragCase, reqBytes []byte) (reply []byte, normalLen int) {
 	f := cli.FramingOf(c.Kind)
 	d := device.New(c.DevSeed)
+	if c.EchoShaped && f == spec.RTU && c.Req.FC == 3 && len(reqBytes) == 8 && c.Req.Qty >= 3 {
+		regs := []byte{reqBytes[3], reqBytes[4], reqBytes[5], reqBytes[6], reqBytes[7], reqBytes[0]}
+		d.Answer(f, spec.EncodeRequest(f, spec.Req{FC: 16, Unit: c.Req.Unit, Addr: c.Req.Addr, Qty: 3, ByteCount: 6, Payload: regs}))
+	}
 	normal := d.Answer(f, reqBytes)
 	if c.ExcCode != 0 {
 		d2 := device.New(c.DevSeed)
@@ -254,6 +262,11 @@ func genFrag(t *rapid.T, kinds []string) fragCase {
 		c.ExcCode = rapid.SampledFrom([]uint8{1, 2, 3, 4, 5, 6, 8, 10, 11, 0x7F, 0xFF}).Draw(t, "exc_code")
 	}
 	f := cli.FramingOf(c.Kind)
+	if f == spec.RTU && rapid.IntRange(0, 9).Draw(t, "echo_shaped") == 0 {
+		q := rapid.IntRange(3, 125).Draw(t, "echo_qty")
+		c.EchoShaped, c.ExcCode = true, 0
+		c.Req = spec.Req{FC: 3, Unit: rapid.Uint8().Draw(t, "echo_unit"), Addr: uint16(2*q)<<8 | uint16(rapid.Uint8().Draw(t, "echo_addr_lo")), Qty: uint16(q)}
+	}
 	q, err := cat.NewRequest(f, c.Req)
 	if err != nil {
 		// legal request the constructor refuses (fc23 read quantity 125): make it acceptable
